@@ -164,6 +164,10 @@ pub fn install_panic_hook() {
             "<non-string panic>".to_string()
         };
         let loc = info.location().map_or(String::new(), |l| format!(" at {}:{}", l.file(), l.line()));
+        if msg.starts_with("unsafe precondition") || msg.contains("cannot unwind") || msg.contains("misaligned") || msg.contains("null pointer") {
+            // a non-unwinding panic (e.g. std's ub_checks) aborts the process: leave the message for the parent
+            eprintln!("{msg}{loc}");
+        }
         LAST_PANIC.with(|p| *p.borrow_mut() = format!("{msg}{loc}"));
     }));
 }
